@@ -73,24 +73,6 @@ typedef std::shared_ptr<SimEdge> Eref;
 typedef unsigned int Id;
 typedef std::vector<Id> IdV;
 
-// ------------------------------------------------------------------ known-defect triggers the generator keeps rare
-enum Hz {
-  HZ_PARALLEL = 1,          // link on a pair that is already related
-  HZ_UNDIR_UNLINK = 2,      // unlink / deletion of a linked node while undirected
-  HZ_MKDIR_FLIP = 4,        // makeDirected when some edge is stored (larger id, smaller id)
-  HZ_NULL_EDGE = 8,         // link / createNode-from without edge object
-  HZ_DEL_INDEXED = 16,      // deleteNode of a node object that carries an index
-  HZ_DEL_SHARED = 32,       // deletion of a node that another observer associates
-  HZ_UNLINK_INDEXED = 64,   // removal of an edge whose object carries an index
-  HZ_ABSENT_INDEX = 128,    // getNode(index) / getEdge(index) with an unused index
-  HZ_OFFBYONE = 256,        // object list query whose id list contains exactly the observer's table size
-  HZ_GITER_ABSENT = 512,    // graph-level neighbour/edge iterator on an absent node
-  HZ_ASSOC_ABSENT = 1024,   // associateNode / associateEdge with an absent graph id
-  HZ_LEAVES = 2048,         // observer getAllLeaves / getAllInnerNodes while the graph holds ids beyond the observer's table
-  HZ_ASSOC_OCCUPIED = 4096  // associateNode / associateEdge on an id that already has an object
-};
-const long HZ_ALL = 8191;
-
 struct MEdge { Id a, b; };
 struct Model {
   bool directed = true;
@@ -124,25 +106,19 @@ class Exec {
   std::shared_ptr<bpp::GlobalGraph> g;
   std::vector<MObs> obs;
   int nextPid = 0;
-  long hz = 0; bool strict = false, asc = false;
-  std::string tag;          // set while the current step performs a known-defect trigger (only possible when its hz bit is on)
+  bool strict = false, asc = false;
+  std::string tag;          // context of the current step for the detail text of a failure (never part of a signature)
   long step_ = 0; size_t acting_ = 0;
 
 public:
   Exec(const Plan& pl, Ctx& c) : p(pl), ctx(c) {}
 
   // ---------------------------------------------------------------- failure reporting
-  static std::string group(const std::string& check) {
-    if (check.compare(0, 5, "graph") == 0) return "graph";
-    if (check.compare(0, 3, "obs") == 0) return "obs";
-    return "outcome";
-  }
   [[noreturn]] void fail(const std::string& kind, const std::string& check, const std::string& detail) {
-    std::string s = tag.empty() ? kind + ":" + check : kind + ":after-" + tag + ":" + group(check);
-    ctx.fail(s, s, check + ": " + detail);
+    std::string s = kind + ":" + check;
+    ctx.fail(s, s, (tag.empty() ? std::string() : "[" + tag + "] ") + check + ": " + detail);
   }
 #define MM(cond, check, detail) do { if (!(cond)) fail("model-mismatch", (check), (detail)); } while (0)
-  bool allowed(long bit) const { return (hz & bit) != 0; }
 
   // call that may raise: 0 returned, 1 bpp::Exception; anything else is a violation
   template <class F> int attempt(const std::string& what, F f) {
@@ -317,10 +293,9 @@ public:
   IdV known(const MObs& o, const IdV& ids, bool edge) { IdV r; for (Id i : ids) if (edge ? o.e2h.count(i) : o.n2h.count(i)) r.push_back(i); return r; }
   bool contains(const IdV& v, Id x) { return std::find(v.begin(), v.end(), x) != v.end(); }
 
-  // runs an object-list query unless it is the exact trigger of the known table-size defect and that trigger is switched off
-  template <class Q> void listQuery(bool hazardous, Q q) {
-    if (hazardous && !allowed(HZ_OFFBYONE)) return;
-    std::string save = tag; if (hazardous) { tag = "list-id-equals-table-size"; ctx.probe("hz-offbyone-query"); }
+  // object-list query; edgeCase marks the boundary "an id in the list equals the size of the observer's object table"
+  template <class Q> void listQuery(bool edgeCase, Q q) {
+    std::string save = tag; if (edgeCase) { tag = "list id equals the observer's table size"; ctx.probe("list-id-equals-table-size"); }
     q();
     tag = save;
   }
@@ -507,7 +482,6 @@ public:
     if (m.nodes.size() >= MAXNODES || m.edges.size() >= MAXEDGES) { ctx.outcome("skip"); return; }
     Id origin = 0; bool present = pickNode(k, o.a, origin) && !(o.c & 2);
     bool nullEdge = (o.c & 1) != 0;
-    if (nullEdge && !allowed(HZ_NULL_EDGE)) nullEdge = false;
     bool dupEdge = (o.c & 4) && !ob.e2h.empty() && present;
     if (!present && !strict && !(o.c & 2)) { ctx.outcome("skip"); return; }
     Nref from = present ? objN(k, origin) : absentN(k, o.b);
@@ -516,7 +490,7 @@ public:
     if (dupEdge) e = ob.E[static_cast<size_t>(ob.e2h.begin()->second)];
     else if (!nullEdge) { e = freshE(ob); he = static_cast<int>(ob.E.size() - 1); }
     if (present && !dupEdge) {
-      if (nullEdge) tag = "null-edge-link";
+      if (nullEdge) { tag = "link without edge object"; ctx.probe("link-without-edge-object"); }
       mustReturn("createNode-from", [&] { if (e) ob.o->createNode(from, x, e); else ob.o->createNode(from, x); });
       noteNewNode(k, x, h, "createNode-from");
       noteNewEdge(k, origin, ob.o->getNodeGraphid(x), e, he, "createNode-from");
@@ -549,8 +523,8 @@ public:
     if (ia == ib && !wantLoop) { if (v.size() < 2) { ctx.outcome("skip"); return; } ib = (ib + 1) % v.size(); }
     Id a = v[ia], b = v[ib];
     if (asc && a > b) std::swap(a, b);
-    if (related(a, b) && !allowed(HZ_PARALLEL)) {
-      // scan for an unrelated pair (the generator keeps the known parallel-link trigger out of ordinary runs)
+    if (related(a, b) && !(o.c & 32) && !strict) {
+      // scan for an unrelated pair (an already related pair is requested explicitly with flag 32)
       bool found = false;
       for (size_t t = 1; t < v.size() * v.size() && !found; ++t) {
         Id ca = v[(ia + t / v.size()) % v.size()], cb = v[(ib + t) % v.size()];
@@ -561,15 +535,19 @@ public:
       if (!found) { ctx.outcome("skip"); return; }
     }
     Nref xa = objN(k, a), xb = objN(k, b);
+    if (related(a, b)) {   // the graph holds one edge per ordered pair (per unordered pair when undirected): a second link is rejected
+      Eref e = freshE(ob);
+      mustRaise("link:already-related", [&] { ob.o->link(xa, xb, e); });
+      ctx.probe("link-already-related-rejected"); ctx.fault("reject@k"); ctx.rejected(); return;
+    }
     if ((o.c & 16) && !ob.e2h.empty()) {
       Eref e = ob.E[static_cast<size_t>(ob.e2h.begin()->second)];
       mustRaise("link:duplicate-edge-object", [&] { ob.o->link(xa, xb, e); });
       ctx.fault("reject@k"); ctx.rejected(); return;
     }
-    bool nullEdge = (o.c & 1) && allowed(HZ_NULL_EDGE);
+    bool nullEdge = (o.c & 1) != 0;
     Eref e; int he = -1; if (!nullEdge) { e = freshE(ob); he = static_cast<int>(ob.E.size() - 1); }
-    if (related(a, b)) { tag = "parallel-link"; ctx.probe("hz-parallel-link"); }
-    else if (nullEdge) { tag = "null-edge-link"; ctx.probe("hz-null-edge-link"); }
+    if (nullEdge) { tag = "link without edge object"; ctx.probe("link-without-edge-object"); }
     if (m.directed && related(b, a) && a != b) ctx.probe("reciprocal-link");
     if (a == b) ctx.probe("self-loop");
     mustReturn("link", [&] { if (e) ob.o->link(xa, xb, e); else ob.o->link(xa, xb); });
@@ -589,7 +567,6 @@ public:
     if (o.c & 4) {   // two present nodes without a relation in that direction
       Id a = v[static_cast<size_t>(o.a) % v.size()], b = v[static_cast<size_t>(o.b) % v.size()];
       if (related(a, b)) { ctx.outcome("skip"); return; }
-      if (!m.directed && !allowed(HZ_UNDIR_UNLINK)) { ctx.outcome("skip"); return; }
       mustRaise("unlink:no-relation", [&] { ob.o->unlink(objN(k, a), objN(k, b)); });
       if (m.directed && related(b, a)) ctx.probe("unlink-reversed-direction-rejected");
       ctx.fault("reject@k"); ctx.rejected(); return;
@@ -598,14 +575,12 @@ public:
     IdV cand;
     for (auto& kv : m.edges) {
       if (!ob.n2h.count(kv.second.a) || !ob.n2h.count(kv.second.b)) continue;
-      if (!m.directed && kv.second.a != kv.second.b && !allowed(HZ_UNDIR_UNLINK)) continue;
-      if (edgeIndexedAnywhere(kv.first) && !allowed(HZ_UNLINK_INDEXED)) continue;
       cand.push_back(kv.first);
     }
     if (strict) {   // enumerated plans name the pair directly
       Id a = v[static_cast<size_t>(o.a)], b = v[static_cast<size_t>(o.b)]; IdV c2;
       for (Id e : cand) { const MEdge& me = m.edges.at(e); if ((me.a == a && me.b == b) || (!m.directed && me.a == b && me.b == a)) c2.push_back(e); }
-      if (c2.empty() && !related(a, b) && (m.directed || allowed(HZ_UNDIR_UNLINK))) {
+      if (c2.empty() && !related(a, b)) {
         mustRaise("unlink:no-relation", [&] { ob.o->unlink(objN(k, a), objN(k, b)); });
         ctx.fault("reject@k"); ctx.rejected(); return;
       }
@@ -616,8 +591,8 @@ public:
     MEdge me = m.edges.at(e);
     Id a = me.a, b = me.b;
     if (!m.directed && (o.c & 8)) std::swap(a, b);
-    if (!m.directed && me.a != me.b) { tag = "undirected-unlink"; ctx.probe("hz-undirected-unlink"); }
-    else if (edgeIndexedAnywhere(e)) { tag = "unlink-indexed-edge"; ctx.probe("hz-unlink-indexed-edge"); }
+    if (!m.directed && me.a != me.b) { tag = "undirected unlink"; ctx.probe("undirected-unlink"); }
+    if (edgeIndexedAnywhere(e)) { tag += " unlink of an indexed edge"; ctx.probe("unlink-indexed-edge"); }
     bool seenByOther = false; for (size_t j = 0; j < obs.size(); ++j) if (j != k && obs[j].e2h.count(e)) seenByOther = true;
     if (seenByOther) ctx.probe("unlink-notifies-other-observer");
     mustReturn("unlink", [&] { ob.o->unlink(objN(k, a), objN(k, b)); });
@@ -627,17 +602,24 @@ public:
     ctx.ok();
   }
 
+  // every node may be deleted; t names the circumstances for the detail text and the probes
   bool deletable(size_t k, Id n, std::string& t) const {
     t.clear();
     IdV inc = incident(n);
     bool linked = false; for (Id e : inc) { const MEdge& me = m.edges.at(e); if (me.a != me.b) linked = true; }
-    if (!m.directed && linked) { if (!allowed(HZ_UNDIR_UNLINK)) return false; t = "undirected-delete-linked-node"; }
-    for (Id e : inc) if (edgeIndexedAnywhere(e)) { if (!allowed(HZ_UNLINK_INDEXED)) return false; if (t.empty()) t = "unlink-indexed-edge"; }
-    if (k < obs.size()) { int h = obs[k].hOfNode(n); if (h >= 0 && obs[k].nIdx.count(h)) { if (!allowed(HZ_DEL_INDEXED)) return false; if (t.empty()) t = "delete-indexed-node"; } }
-    if (nodeElsewhere(n, k)) { if (!allowed(HZ_DEL_SHARED)) return false; if (t.empty()) t = "delete-node-known-to-another-observer"; }
+    if (!m.directed && linked) t += " undirected-linked-node";
+    for (Id e : inc) if (edgeIndexedAnywhere(e)) { t += " indexed-edge"; break; }
+    if (k < obs.size()) { int h = obs[k].hOfNode(n); if (h >= 0 && obs[k].nIdx.count(h)) t += " indexed-node"; }
+    if (nodeElsewhere(n, k)) t += " node-known-to-another-observer";
     return true;
   }
 
+  void noteDelete(const std::string& t) {
+    if (t.find("undirected-linked-node") != std::string::npos) ctx.probe("delete-linked-node-undirected");
+    if (t.find("indexed-edge") != std::string::npos) ctx.probe("delete-node-with-indexed-edge");
+    if (t.find("indexed-node") != std::string::npos) ctx.probe("delete-indexed-node");
+    if (t.find("another-observer") != std::string::npos) ctx.probe("delete-node-known-to-another-observer");
+  }
   void opDelete(const Op& o) {
     size_t k = actor(o); MObs& ob = obs[k];
     IdV v = nodesOf(ob);
@@ -656,7 +638,7 @@ public:
       }
       if (cand.empty()) { ctx.outcome("skip"); return; }
       Id n = cand[static_cast<size_t>(o.a) % cand.size()]; deletable(obs.size(), n, t); tag = t;
-      if (!t.empty()) ctx.probe("hz-delete");
+      noteDelete(t);
       if (!incident(n).empty()) ctx.probe("delete-linked-node");
       mustReturn("graph-deleteNode", [&] { g->deleteNode(n); });
       modelRemoveNode(n); ctx.ok(); return;
@@ -666,7 +648,7 @@ public:
     else for (Id n : v) if (deletable(k, n, t)) cand.push_back(n);
     if (cand.empty()) { ctx.outcome("skip"); return; }
     Id n = cand[static_cast<size_t>(strict ? 0 : o.a) % cand.size()]; deletable(k, n, t); tag = t;
-    if (!t.empty()) ctx.probe("hz-delete");
+    noteDelete(t);
     if (!incident(n).empty()) ctx.probe("delete-linked-node");
     bool in = false; for (auto& kv : m.edges) if (kv.second.b == n && kv.second.a != n) in = true;
     if (in && m.directed) ctx.probe("delete-node-with-incoming-edge");
@@ -681,8 +663,7 @@ public:
     if (toDirected) {
       if (m.directed) { mustReturn("makeDirected", [&] { g->makeDirected(); }); ctx.outcome("noop"); return; }
       bool flip = false; for (auto& kv : m.edges) if (kv.second.a > kv.second.b) flip = true;
-      if (flip && !allowed(HZ_MKDIR_FLIP)) { ctx.outcome("skip"); return; }
-      if (flip) { tag = "makeDirected-reorients-edge"; ctx.probe("hz-makeDirected-flip"); }
+      if (flip) { tag = "makeDirected re-orients an edge"; ctx.probe("makeDirected-reorients-edge"); }
       mustReturn("makeDirected", [&] { g->makeDirected(); });
       m.directed = true;
       // "the resulting directions are totally arbitrary": take each edge's direction from the node that lists it as outgoing
@@ -718,7 +699,6 @@ public:
       nb.o.reset(new Obs(g));
       ctx.probe("observer-attached"); ctx.ok(); return;
     }
-    if (obs[k].nullKey && !crashProbe) { ctx.outcome("skip"); return; }
     if (crashProbe) {   // link without edge object and copy within one step (the link alone is probe 4)
       IdV v = nodesOf(obs[k]); if (v.size() < 2 || related(v[0], v[1])) { ctx.outcome("skip"); return; }
       obs[k].o->link(objN(k, v[0]), objN(k, v[1]));
@@ -747,6 +727,7 @@ public:
     // the source's objects are foreign to the copy (checked by hasNode in the oracle through absent handles of other observers)
     for (auto& kv : src.n2h) MM(!nb.o->hasNode(src.N[static_cast<size_t>(kv.second)]), "obs-copy:node-object-shared", "the copy knows the source's object");
     ctx.probe("observer-copied");
+    if (src.nullKey) ctx.probe("copy-after-link-without-edge-object");
     if (!src.nIdx.empty() || !src.eIdx.empty()) ctx.probe("observer-copied-with-indices");
     if (o.c & 4) {   // peer-gone: the source disappears right after the copy was taken
       obs.erase(obs.begin() + static_cast<long>(k));
@@ -825,9 +806,10 @@ public:
           mustRaise("associateNode:duplicate-object", [&] { ob.o->associateNode(x, freeIds[0]); });
           ctx.fault("reject@k"); ctx.rejected(); return;
         }
-        if ((o.b & 2) && allowed(HZ_ASSOC_OCCUPIED) && !occ.empty()) {
-          Id n = occ[static_cast<size_t>(o.a) % occ.size()]; Nref x = freshN(ob);
-          tag = "associate-occupied-id"; ctx.probe("hz-associate-occupied");
+        IdV occ2; for (Id n : occ) if (!ob.nIdx.count(ob.n2h.at(n))) occ2.push_back(n);   // what happens to the replaced object's index is not documented
+        if ((o.b & 2) && !occ2.empty()) {
+          Id n = occ2[static_cast<size_t>(o.a) % occ2.size()]; Nref x = freshN(ob);
+          tag = "associate on an occupied id"; ctx.probe("associate-occupied-id");
           int r = attempt("associateNode", [&] { ob.o->associateNode(x, n); });
           // either outcome keeps "at most one object per node": a raise leaves the old object, a return replaces it
           if (r == 0) ob.n2h[n] = static_cast<int>(ob.N.size() - 1);
@@ -848,7 +830,6 @@ public:
       }
       default: {  // associateEdge / setEdgeLinking: give an object to a live edge that has none in this observer
         IdV freeIds; for (auto& kv : m.edges) if (!ob.e2h.count(kv.first)) freeIds.push_back(kv.first);
-        if (ob.nullKey && !allowed(HZ_NULL_EDGE)) { ctx.outcome("skip"); return; }
         if (o.b & 1) {
           if (ob.e2h.empty() || freeIds.empty()) { ctx.outcome("skip"); return; }
           Eref x = ob.E[static_cast<size_t>(ob.e2h.begin()->second)];
@@ -893,14 +874,16 @@ public:
                mustRaise("graph-getEdges:absent-node", [&] { g->getEdges(badN); }); mustRaise("graph-getOutgoingEdges:absent-node", [&] { g->getOutgoingEdges(badN); }); mustRaise("graph-getIncomingEdges:absent-node", [&] { g->getIncomingEdges(badN); }); break;
       case 12: mustRaise("graph-getNodes:absent-edge", [&] { g->getNodes(badE); }); mustRaise("graph-getTop:absent-edge", [&] { g->getTop(badE); }); mustRaise("graph-getBottom:absent-edge", [&] { g->getBottom(badE); });
                if (!m.nodes.empty()) { Id n = *m.nodes.begin(); mustRaise("graph-getEdge:absent-node", [&] { g->getEdge(n, badN); }); mustRaise("graph-getEdge:absent-node", [&] { g->getEdge(badN, n); }); mustRaise("graph-getAnyEdge:absent-node", [&] { g->getAnyEdge(badN, n); }); } break;
-      case 13: { Id ix = 0; while (ob.idxUsedN(ix)) ++ix; ix += static_cast<Id>(o.a % 2) * 40; tag = "absent-index"; ctx.probe("hz-absent-index"); mustRaise("getNode-index:absent-index", [&] { O.getNode(static_cast<Obs::NodeIndex>(ix)); }); break; }
-      case 14: { Id ix = 0; while (ob.idxUsedE(ix)) ++ix; ix += static_cast<Id>(o.a % 2) * 40; tag = "absent-index"; ctx.probe("hz-absent-index"); mustRaise("getEdge-index:absent-index", [&] { O.getEdge(static_cast<Obs::EdgeIndex>(ix)); }); break; }
-      case 15: tag = "graph-iterator-absent-node"; ctx.probe("hz-graph-iterator-absent-node");
+      case 13: { Id ix = 0; while (ob.idxUsedN(ix)) ++ix; ix += static_cast<Id>(o.a % 2) * 40; tag = "unused index"; ctx.probe("absent-index-lookup"); mustRaise("getNode-index:absent-index", [&] { O.getNode(static_cast<Obs::NodeIndex>(ix)); }); break; }
+      case 14: { Id ix = 0; while (ob.idxUsedE(ix)) ++ix; ix += static_cast<Id>(o.a % 2) * 40; tag = "unused index"; ctx.probe("absent-index-lookup"); mustRaise("getEdge-index:absent-index", [&] { O.getEdge(static_cast<Obs::EdgeIndex>(ix)); }); break; }
+      case 15: tag = "graph iterator on an absent node"; ctx.probe("graph-iterator-absent-node");
                switch (o.a % 4) { case 0: mustRaise("graph-iterator:absent-node", [&] { g->outgoingNeighborNodesIterator(badN); }); break; case 1: mustRaise("graph-iterator:absent-node", [&] { g->incomingNeighborNodesIterator(badN); }); break;
                  case 2: mustRaise("graph-iterator:absent-node", [&] { g->outgoingEdgesIterator(badN); }); break; default: mustRaise("graph-iterator:absent-node", [&] { g->incomingEdgesIterator(badN); }); } break;
-      case 16: { tag = "associate-absent-id"; ctx.probe("hz-associate-absent-id"); Nref x = Nref(new SimNode(nextPid++)); Eref y = Eref(new SimEdge(nextPid++));
+      case 16: { tag = "associate with an absent graph id"; ctx.probe("associate-absent-id"); Nref x = Nref(new SimNode(nextPid++)); Eref y = Eref(new SimEdge(nextPid++));
                  if (o.a % 2 == 0) mustRaise("associateNode:absent-graph-id", [&] { O.associateNode(x, badN); }); else mustRaise("associateEdge:absent-graph-id", [&] { O.associateEdge(y, badE); }); break; }
       case 17: mustRaise("graph-setRoot-absent", [&] { O.setRoot(an); }); break;
+      case 18: ctx.probe("dissociate-unknown-object"); mustRaise("dissociateNode:absent-object", [&] { O.dissociateNode(an); }); break;
+      case 19: ctx.probe("dissociate-unknown-object"); mustRaise("dissociateEdge:absent-object", [&] { O.dissociateEdge(ae); }); break;
       default: ctx.outcome("skip"); return;
     }
     ctx.fault("reject@k"); ctx.probe("absent-argument-query-raised");
@@ -935,8 +918,8 @@ public:
     }
     // leaves / inner nodes through the observer: defined objects only
     bool beyond = false; for (Id n : m.nodes) if (n >= ob.szN) beyond = true;
-    if (!beyond || allowed(HZ_LEAVES)) {
-      std::string save = tag; if (beyond) { tag = "leaves-beyond-table"; ctx.probe("hz-leaves-beyond-table"); }
+    {
+      std::string save = tag; if (beyond) { tag = "graph holds ids beyond the observer's table"; ctx.probe("leaves-beyond-table"); }
       std::vector<Nref> lv; mustReturn("obs-getAllLeaves", [&] { lv = O.getAllLeaves(); });
       IdV gl = g->getAllLeaves(); MM(uniq(nodeIds(ob, lv, "obs-getAllLeaves")) == uniq(known(ob, gl, false)), "obs-getAllLeaves", "differs from the graph's leaves restricted to associated nodes");
       std::vector<Nref> inn; mustReturn("obs-getAllInnerNodes", [&] { inn = O.getAllInnerNodes(); });
@@ -992,7 +975,7 @@ public:
   void run() {
     g_arena.reset(static_cast<uint64_t>(p.geti("perm")));
     if (p.geti("perm") != 0) ctx.fault("addr-perm");
-    hz = p.geti("hz"); strict = p.geti("strict") != 0; asc = p.geti("asc") != 0;
+    strict = p.geti("strict") != 0; asc = p.geti("asc") != 0;
     m.directed = p.geti("directed", 1) != 0;
     obs.emplace_back();
     obs[0].o.reset(new Obs(m.directed));
@@ -1013,37 +996,33 @@ public:
 };
 
 // ------------------------------------------------------------------ plans
-// Per-trigger rates of the known-defect triggers in seeded runs.  Each trigger is produced only in runs whose
-// "hz" configuration carries its bit; set a rate to 1.0 once the corresponding defect is repaired in the library.
-const double HAZARD_RUN_RATE = 0.16;      // share of seeded runs that enable one (sometimes two) of the 13 triggers: ~1.5 % per trigger
-
 Op mk(const char* k, long a = 0, long b = 0, long c = 0, long d = 0) { return Op(k, a, b, c, d); }
 
-// hand-written probe plans: one per known finding, so that each KNOWN-FINDING line is printed by every check
-// (and its disappearance is noticed).  The two crash-class triggers exist only here.
+// hand-written regression plans: the minimal trigger of each defect this harness found (all repaired in the library);
+// they run first in every check, through the same executor, and are kept as replay files under known/fixed/.
 const long NPROBES = 18;
 Plan probePlan(long i) {
   Plan p; p.cfg["directed"] = 1; p.cfg["perm"] = 0; p.cfg["strict"] = 0; p.cfg["asc"] = 0; p.cfg["probe"] = 1 + i;
   auto& o = p.ops;
   switch (i) {
-    case 0: p.cfg["hz"] = HZ_PARALLEL; o = {mk("cn"), mk("cn"), mk("ln", 0, 1), mk("ln", 0, 1)}; break;
-    case 1: p.cfg["hz"] = HZ_UNDIR_UNLINK; p.cfg["directed"] = 0; o = {mk("cn"), mk("cf", 0), mk("ul", 0, 0)}; break;
-    case 2: p.cfg["hz"] = HZ_UNDIR_UNLINK; p.cfg["directed"] = 0; o = {mk("cn"), mk("cf", 0), mk("dn", 0)}; break;
-    case 3: p.cfg["hz"] = HZ_MKDIR_FLIP; o = {mk("cn"), mk("cn"), mk("ln", 1, 0), mk("mu"), mk("md")}; break;
-    case 4: p.cfg["hz"] = HZ_NULL_EDGE; o = {mk("cn"), mk("cn"), mk("ln", 0, 1, 1)}; break;
-    case 5: p.cfg["hz"] = 0; o = {mk("cn"), mk("cn"), mk("copyNullEdgeKey")}; break;
-    case 6: p.cfg["hz"] = HZ_DEL_INDEXED; o = {mk("cn"), mk("ix", 0, 0, 1), mk("dn", 0)}; break;
-    case 7: p.cfg["hz"] = HZ_DEL_SHARED; o = {mk("cn"), mk("cp"), mk("dn", 0)}; break;
-    case 8: p.cfg["hz"] = HZ_UNLINK_INDEXED; o = {mk("cn"), mk("cf", 0), mk("ix", 0, 0, 3), mk("ul", 0, 0)}; break;
-    case 9: p.cfg["hz"] = HZ_ABSENT_INDEX; o = {mk("cn"), mk("qa", 0, 0, 13)}; break;
-    case 10: p.cfg["hz"] = HZ_ABSENT_INDEX; o = {mk("cn"), mk("qa", 1, 0, 14)}; break;
-    case 11: p.cfg["hz"] = HZ_OFFBYONE; o = {mk("cn"), mk("cp"), mk("cf", 0, 0, 0, 0)}; break;
-    case 12: p.cfg["hz"] = HZ_GITER_ABSENT; o = {mk("cn"), mk("qa", 0, 0, 15)}; break;
-    case 13: p.cfg["hz"] = HZ_ASSOC_ABSENT; o = {mk("cn"), mk("qa", 0, 0, 16)}; break;
-    case 14: p.cfg["hz"] = HZ_LEAVES; o = {mk("cn"), mk("cp"), mk("cn", 0, 0, 0, 0), mk("qd", 0, 0, 0, 1)}; break;
-    case 15: p.cfg["hz"] = HZ_ASSOC_OCCUPIED; o = {mk("cn"), mk("as", 0, 2, 1)}; break;
-    case 16: p.cfg["hz"] = 0; o = {mk("cn"), mk("dissociateAbsentNode")}; break;
-    default: p.cfg["hz"] = 0; o = {mk("cn"), mk("cf", 0), mk("dissociateAbsentEdge")}; break;
+    case 0: o = {mk("cn"), mk("cn"), mk("ln", 0, 1), mk("ln", 0, 1, 32)}; break;                        // link on an already related pair
+    case 1: p.cfg["directed"] = 0; o = {mk("cn"), mk("cf", 0), mk("ul", 0, 0)}; break;                   // undirected unlink
+    case 2: p.cfg["directed"] = 0; o = {mk("cn"), mk("cf", 0), mk("dn", 0)}; break;                      // undirected deletion of a linked node
+    case 3: o = {mk("cn"), mk("cn"), mk("ln", 1, 0), mk("mu"), mk("md")}; break;                         // makeDirected re-orients an edge
+    case 4: o = {mk("cn"), mk("cn"), mk("ln", 0, 1, 1)}; break;                                          // link without edge object
+    case 5: o = {mk("cn"), mk("cn"), mk("copyNullEdgeKey")}; break;                                      // ... then copy the observer
+    case 6: o = {mk("cn"), mk("ix", 0, 0, 1), mk("dn", 0)}; break;                                       // delete an indexed node
+    case 7: o = {mk("cn"), mk("cp"), mk("dn", 0)}; break;                                                // delete a node another observer knows
+    case 8: o = {mk("cn"), mk("cf", 0), mk("ix", 0, 0, 3), mk("ul", 0, 0)}; break;                       // unlink an indexed edge
+    case 9: o = {mk("cn"), mk("qa", 0, 0, 13)}; break;                                                   // getNode(unused index)
+    case 10: o = {mk("cn"), mk("qa", 1, 0, 14)}; break;                                                  // getEdge(unused index)
+    case 11: o = {mk("cn"), mk("cp"), mk("cf", 0, 0, 0, 0)}; break;                                      // neighbour id == the copy's table size
+    case 12: o = {mk("cn"), mk("qa", 0, 0, 15)}; break;                                                  // graph iterator on an absent node
+    case 13: o = {mk("cn"), mk("qa", 0, 0, 16)}; break;                                                  // associate with an absent graph id
+    case 14: o = {mk("cn"), mk("cp"), mk("cn", 0, 0, 0, 0), mk("qd", 0, 0, 0, 1)}; break;                // leaves while the graph holds unseen nodes
+    case 15: o = {mk("cn"), mk("as", 0, 2, 1)}; break;                                                   // associate on an occupied id
+    case 16: o = {mk("cn"), mk("dissociateAbsentNode")}; break;
+    default: o = {mk("cn"), mk("cf", 0), mk("dissociateAbsentEdge")}; break;
   }
   return p;
 }
@@ -1070,13 +1049,17 @@ public:
     HarnessInfo i;
     i.real = {"bpp::GlobalGraph", "bpp::AssociationGraphImplObserver<SimNode,SimEdge,GlobalGraph> (constructors from bool and from a graph, copy constructor, clone, destructor)", "GlobalGraph node/edge iterator classes (const and non-const)", "observer NodeIteratorClass / EdgeIteratorClass (const and non-const)", "bpp::Exception"};
     i.stub = {"SimNode / SimEdge payload classes (integer identity; class-level operator new drawing slots of a static arena in a permutation taken from the plan, so the library's own copies are covered)"};
-    i.rule = "plans: seeded histories of <=40 operations over <=8 nodes, <=20 edges and 1..3 observers of one graph (directed or undirected start, direction changes, with/without edge objects, indices set or allocated, absent arguments), preceded by an enumerated prefix of all histories up to length 4 (quick) / 5 (thorough) over a 24-letter alphabet on 3 node slots for both start directions and by 18 hand-written probes of known findings; non-trivial = >=3 accepted state-changing steps and >=1 edge present at some point; distinct = distinct fingerprint of the executed op-kind/outcome sequence";
+    i.rule = "plans: seeded histories of <=40 operations over <=8 nodes, <=20 edges and 1..3 observers of one graph (directed or undirected start, direction changes, with/without edge objects, indices set or allocated, absent arguments), preceded by an enumerated prefix of all histories up to length 4 (quick) / 5 (thorough) over a 24-letter alphabet on 3 node slots for both start directions and by 18 hand-written regression plans (minimal triggers of the defects this harness found, all repaired); non-trivial = >=3 accepted state-changing steps and >=1 edge present at some point; distinct = distinct fingerprint of the executed op-kind/outcome sequence";
     i.simTime = "steps (no clock exists in this component)";
     i.faultKinds = {"reject@k", "peer-gone", "addr-perm"};
     i.probeNames = {"two-or-more-observers", "undirected-with-edges", "observer-copied", "observer-copied-with-indices", "observer-attached", "compound-create-left-unlinked-node", "reciprocal-link", "self-loop",
                     "makeUndirected-rejected-reciprocal", "makeUndirected-with-edges", "makeDirected-with-edges", "unlink-notifies-other-observer", "unlink-reversed-direction-rejected", "delete-linked-node", "delete-node-with-incoming-edge",
                     "duplicate-index-rejected", "edge-index-set", "edge-index-in-use-node-index-free", "node-dissociated", "node-associated-later", "edge-associated-later", "absent-argument-query-raised", "absent-arg-forgotten-object", "absent-arg-foreign-object",
-                    "getAnyEdge-found-reverse-direction", "leaf-with-reciprocal-neighbour", "index-view-queried"};
+                    "getAnyEdge-found-reverse-direction", "leaf-with-reciprocal-neighbour", "index-view-queried",
+                    // boundaries where this harness found (now repaired) defects: each must keep being reached
+                    "link-already-related-rejected", "link-without-edge-object", "copy-after-link-without-edge-object", "undirected-unlink", "unlink-indexed-edge", "delete-linked-node-undirected",
+                    "delete-node-with-indexed-edge", "delete-indexed-node", "delete-node-known-to-another-observer", "makeDirected-reorients-edge", "list-id-equals-table-size", "leaves-beyond-table",
+                    "absent-index-lookup", "graph-iterator-absent-node", "associate-absent-id", "associate-occupied-id", "dissociate-unknown-object"};
     i.assumptions = {"order and multiplicity of every returned list are not asserted (lists are compared as sets; cardinalities through the count queries)",
                      "getDegree / getNumberOfNeighbors are only bounded between the number of distinct neighbours and the number of edge ends (the documentation does not say whether a reciprocal neighbour counts twice); degree, neighbour count and isLeaf are not asserted for nodes carrying a self-loop",
                      "getAllLeaves is asserted only where both documented definitions agree; getAllInnerNodes only lists live nodes; getLeavesFromNode, isTree, isDA, orientate, outputToDot are not exercised",
@@ -1086,7 +1069,8 @@ public:
                      "graph ids and allocated indices are the library's choice: the reference adopts the returned value and only requires it to be unused",
                      "node objects are never null; setNodeIndex/setEdgeIndex are only applied to associated objects; only objects without an index are dissociated; the root is only read while the node last given to setRoot is alive; observer operator= is not exercised (only copy construction / clone)",
                      "observers are allocated by the default allocator: their address order only decides the order of notifications, which no query can observe",
-                     "triggers of the known findings are produced only in the ~1.5 % of seeded runs per trigger whose configuration enables them (and in the dedicated probes); the two crash-class triggers (copy of an observer holding a null edge key, dissociation of an absent object) only in the probes"};
+                     "a link between two nodes that are already related in that direction (either direction when undirected) must be rejected: the graph stores one edge per ordered pair, so the reference never holds parallel edges",
+                     "associateNode on an id that already has an object may raise or replace the object (at most one object per node is asserted either way); only ids whose object carries no index are used"};
     return i;
   }
   long defaultRuns(Tier t) const override { return t == QUICK ? 40000 : 1500000; }
@@ -1100,7 +1084,7 @@ public:
     idx -= NPROBES;
     long per = perDir(t), dir = idx / per, r = idx % per, len = 1;
     while (r >= pw(len)) { r -= pw(len); ++len; }
-    Plan p; p.cfg["directed"] = dir == 0 ? 1 : 0; p.cfg["perm"] = 0; p.cfg["strict"] = len <= 3 ? 1 : 2; p.cfg["asc"] = 0; p.cfg["hz"] = 0; p.cfg["enumerated"] = 1;
+    Plan p; p.cfg["directed"] = dir == 0 ? 1 : 0; p.cfg["perm"] = 0; p.cfg["strict"] = len <= 3 ? 1 : 2; p.cfg["asc"] = 0; p.cfg["enumerated"] = 1;
     long A = static_cast<long>(alpha_.size());
     for (long l = 0; l < len; ++l) { p.ops.push_back(alpha_[static_cast<size_t>(r % A)]); r /= A; }
     return p;
@@ -1112,11 +1096,6 @@ public:
     p.cfg["perm"] = rng.chance(0.85) ? 1 + rng.below(1000000) : 0;
     p.cfg["strict"] = 0;
     p.cfg["asc"] = rng.chance(0.4) ? 1 : 0;
-    long hzbits = 0;
-    // the graph-iterator trigger (bit 9) is undefined behaviour whose outcome depends on the graph's content: probe only
-    static const std::vector<long> HZBITS = {0, 1, 2, 3, 4, 5, 6, 7, 8, 10, 11, 12};
-    if (rng.chance(HAZARD_RUN_RATE)) { hzbits |= 1L << rng.pick(HZBITS); if (rng.chance(0.2)) hzbits |= 1L << rng.pick(HZBITS); }
-    p.cfg["hz"] = hzbits;
     bool faultsOff = rng.chance(0.2);
     long n = rng.chance(0.7) ? rng.range(4, 20) : rng.range(20, 40);
     static const char* K[] = {"cn", "cf", "ln", "ul", "dn", "md", "mu", "cp", "ds", "ix", "rt", "as", "qa", "qd"};
@@ -1131,7 +1110,7 @@ public:
       o.a = rng.below(8); o.b = rng.below(8); o.c = 0; o.d = rng.below(3);
       if (kk == "cn") o.c = rng.chance(pAbs) ? 1 : 0;
       else if (kk == "cf") o.c = (rng.chance(0.3) ? 1 : 0) | (rng.chance(pAbs) ? 2 : 0) | (rng.chance(pAbs) ? 4 : 0);
-      else if (kk == "ln") o.c = (rng.chance(0.3) ? 1 : 0) | (rng.chance(pAbs / 2) ? 2 : 0) | (rng.chance(pAbs / 2) ? 4 : 0) | (rng.chance(0.06) ? 8 : 0) | (rng.chance(pAbs) ? 16 : 0);
+      else if (kk == "ln") o.c = (rng.chance(0.3) ? 1 : 0) | (rng.chance(pAbs / 2) ? 2 : 0) | (rng.chance(pAbs / 2) ? 4 : 0) | (rng.chance(0.06) ? 8 : 0) | (rng.chance(pAbs) ? 16 : 0) | ((!faultsOff && rng.chance(0.08)) ? 32 : 0);
       else if (kk == "ul") o.c = (rng.chance(pAbs) ? 2 : 0) | (rng.chance(pAbs * 2) ? 4 : 0) | (rng.chance(0.5) ? 8 : 0);
       else if (kk == "dn") { o.c = (rng.chance(pAbs) ? 2 : 0) | (rng.chance(0.15) ? 32 : 0); if ((o.c & 32) && rng.chance(pAbs)) o.c |= 64; }
       else if (kk == "cp") o.c = (rng.chance(0.15) ? 1 : 0) | (rng.chance(0.3) ? 2 : 0) | (rng.chance(0.15) ? 4 : 0);
@@ -1139,11 +1118,9 @@ public:
       else if (kk == "rt") o.c = rng.chance(pAbs * 2) ? 2 : 0;
       else if (kk == "as") { o.c = rng.below(5); o.b = (rng.chance(pAbs * 2) ? 1 : 0) | (rng.chance(0.3) ? 2 : 0); }
       else if (kk == "qa") {
-        std::vector<long> subs = {0, 1, 2, 3, 4, 5, 6, 7, 8, 9, 10, 11, 12, 17};
-        if (hzbits & HZ_ABSENT_INDEX) { subs.push_back(13); subs.push_back(14); subs.push_back(13); subs.push_back(14); }
-        if (hzbits & HZ_GITER_ABSENT) { subs.push_back(15); subs.push_back(15); subs.push_back(15); }
-        if (hzbits & HZ_ASSOC_ABSENT) { subs.push_back(16); subs.push_back(16); subs.push_back(16); }
+        static const std::vector<long> subs = {0, 1, 2, 3, 4, 5, 6, 7, 8, 9, 10, 11, 12, 13, 14, 15, 16, 17, 18, 19};
         o.c = rng.pick(subs); o.b = rng.below(3);
+        if ((o.c == 18 || o.c == 19) && rng.chance(0.85)) o.c = rng.below(18);   // kept infrequent: a regression there is a memory error that kills the worker each time
       }
       p.ops.push_back(o);
     }
